@@ -1,12 +1,21 @@
 """shared body of the C06 and C07 checks (one harness, two oracles)"""
-import fvrun
-import verdict
+import collections
+import json
+
 import build
+import fvrun
+import mtindep
+import verdict
 
 
 def main(prop, level, rule, tier, replay, want_crashes):
     run = verdict.Run(prop, tier, level, replay_of=replay)
     if replay:
+        with open(replay) as fh:
+            rcase = json.load(fh).get("case")
+        if isinstance(rcase, dict) and rcase.get("phase") == "concurrent-independent-use":
+            mtindep.replay(run, rcase, collections.Counter())
+            return run.finish(10, 1, rule)
         return fvrun.replay(run, replay, prop)
     tags = ["gasan"] if tier == "quick" else ["gasan", "casan"]
     T = fvrun.run_all(tier, run.seed, tags)
@@ -37,6 +46,10 @@ def main(prop, level, rule, tier, replay, want_crashes):
     for r in T.inconc[:3]:
         run.inconc(r)
     st = T.stats
+    # containers created, filled, copied and destroyed by 2-16 threads at once, each thread its own containers
+    conc = collections.Counter()
+    mtindep.phase(run, "fv", tier, conc)
+    st.update(conc)
     run.coverage["counters"] = dict(st)
     run.coverage["builds"] = tags
     run.coverage["verdicts_of_the_other_oracle_ignored"] = other
